@@ -908,6 +908,13 @@ fn tree_diff(a: &std::collections::BTreeMap<String, (u64, u64)>, b: &std::collec
     a.keys().find(|k| !b.contains_key(*k)).map(|k| format!("removed {k}"))
 }
 
+/// The truth log holds a thread of the workspace that is not a branch / handoff child: the workspace's default thread
+/// (the store creates no second one).  A workspace that has ONLY children (branched by a store opened for it) is not
+/// judged: whether a child may stand in for the default is the store's choice, not the property's.
+fn log_has_default_thread(hs: &[Hdr], ws_key: &str) -> bool {
+    hs.iter().any(|h| matches!(&h.ev.kind, rip_kernel::EventKind::ContinuityCreated { workspace, .. } if workspace == ws_key) && !hs.iter().any(|c| c.sid == h.sid && (c.code == 15 || c.code == 16)))
+}
+
 fn raw_event(kind: RawKind, id: &str, stream: &[&Hdr]) -> Option<rip_kernel::Event> {
     use rip_kernel::EventKind as K;
     let last = stream.last()?;
@@ -982,7 +989,7 @@ fn apply_call(env: &mut Env, call: &Call, out: &mut Outcome, dist: &mut Option<&
             // and answers a thread of that workspace - whatever state continuities/index.json is in
             if matches!(cp, Cp::EnsureDefault) {
                 let key = env.ws.to_string_lossy().to_string();
-                if hs.iter().any(|h| matches!(&h.ev.kind, rip_kernel::EventKind::ContinuityCreated { workspace, .. } if *workspace == key)) {
+                if log_has_default_thread(&hs, &key) {
                     noop_by_truth = Some("");
                     ensure_idempotent = true;
                     if let Some(d) = dist.as_deref_mut() {
@@ -2238,7 +2245,7 @@ fn router_extra_states() -> Vec<(&'static str, Vec<Call>)> {
 /// when the truth log says so (no recorded cursor passes the filters; the workspace has its thread)
 fn router_decision_requests(known: Option<&String>, hs: &[Hdr], ws_key: &str) -> Vec<Req> {
     let mut v = vec![];
-    let has_thread = hs.iter().any(|h| matches!(&h.ev.kind, rip_kernel::EventKind::ContinuityCreated { workspace, .. } if workspace == ws_key));
+    let has_thread = log_has_default_thread(hs, ws_key);
     for _ in 0..2 {
         v.push(Req { method: "POST", uri: "/threads/ensure".into(), body: None, silent: has_thread, unknown_id: false });
     }
@@ -2538,6 +2545,15 @@ fn live_cases(_a: &Args, res: &mut RunResult, base_id: i64) {
                 uris.push(format!("/tasks/{t}/output"));
                 uris.push(format!("/tasks/{t}/output?stream=stderr"));
                 uris.push(format!("/tasks/{t}/events"));
+                // every combination of the optional query parameters of the range reader (absent, valid, out of range, malformed)
+                for stream in ["", "stream=stdout", "stream=stderr", "stream=bogus"] {
+                    for off in ["", "offset_bytes=0", "offset_bytes=5", "offset_bytes=1000000000", "offset_bytes=18446744073709551615", "offset_bytes=-1"] {
+                        for mx in ["", "max_bytes=0", "max_bytes=1", "max_bytes=1000000000"] {
+                            let q: Vec<&str> = [stream, off, mx].into_iter().filter(|x| !x.is_empty()).collect();
+                            uris.push(format!("/tasks/{t}/output?{}", q.join("&")));
+                        }
+                    }
+                }
             }
             for u in uris {
                 let before = std::fs::read(&log_path).unwrap_or_default();
